@@ -1055,3 +1055,127 @@ def prune_candidates(spec):
                 cand = copy.deepcopy(spec)
                 del cand["roots"][root_kind][key]
                 yield cand
+
+
+# ------------------------------------------------- pool pruning (minimiser)
+
+# pool -> [(field, target pool, shape)]; shape: one | list | pairs (list of
+# [index, score]) | notes (created_by of inline notes) | badges (owner)
+REFS = {
+    "recordings": [("owners", "users", "list"), ("tags", "tags", "list"),
+                   ("notes", "users", "notes")],
+    "clips": [("recording", "recordings", "one")],
+    "sound_events": [("recording", "recordings", "one")],
+    "sequences": [("sound_events", "sound_events", "list"),
+                  ("parent", "sequences", "one")],
+    "se_annotations": [("sound_event", "sound_events", "one"),
+                       ("tags", "tags", "list"), ("created_by", "users", "one"),
+                       ("notes", "users", "notes")],
+    "seq_annotations": [("sequence", "sequences", "one"),
+                        ("tags", "tags", "list"),
+                        ("created_by", "users", "one"),
+                        ("notes", "users", "notes")],
+    "clip_annotations": [("clip", "clips", "one"),
+                         ("sound_events", "se_annotations", "list"),
+                         ("sequences", "seq_annotations", "list"),
+                         ("tags", "tags", "list"), ("notes", "users", "notes")],
+    "se_predictions": [("sound_event", "sound_events", "one"),
+                       ("tags", "tags", "pairs")],
+    "seq_predictions": [("sequence", "sequences", "one"),
+                        ("tags", "tags", "pairs")],
+    "clip_predictions": [("clip", "clips", "one"),
+                         ("sound_events", "se_predictions", "list"),
+                         ("sequences", "seq_predictions", "list"),
+                         ("tags", "tags", "pairs")],
+    "matches": [("source", "se_predictions", "one"),
+                ("target", "se_annotations", "one")],
+    "clip_evaluations": [("annotations", "clip_annotations", "one"),
+                         ("predictions", "clip_predictions", "one"),
+                         ("matches", "matches", "list")],
+    "tasks": [("clip", "clips", "one"), ("status_badges", "users", "badges")],
+}
+ROOT_REFS = [
+    ("recordings", "recordings"), ("clip_annotations", "clip_annotations"),
+    ("clip_predictions", "clip_predictions"),
+    ("clip_evaluations", "clip_evaluations"), ("tasks", "tasks"),
+    ("annotation_tags", "tags"), ("evaluation_tags", "tags"),
+]
+
+
+def _visit_refs(spec, fn):
+    """Call fn(container, key_or_index, target_pool) for every reference."""
+    for pool, fields in REFS.items():
+        for entity in spec.get(pool, []):
+            for field, target, shape in fields:
+                value = entity.get(field)
+                if value is None:
+                    continue
+                if shape == "one":
+                    fn(entity, field, target)
+                elif shape == "list":
+                    for i in range(len(value)):
+                        fn(value, i, target)
+                elif shape == "pairs":
+                    for pair in value:
+                        fn(pair, 0, target)
+                elif shape == "notes":
+                    for note in value:
+                        if note.get("created_by") is not None:
+                            fn(note, "created_by", target)
+                elif shape == "badges":
+                    for badge in value:
+                        if badge.get("owner") is not None:
+                            fn(badge, "owner", target)
+    for root in spec.get("roots", {}).values():
+        for field, target in ROOT_REFS:
+            value = root.get(field)
+            for i in range(len(value or [])):
+                fn(value, i, target)
+
+
+def drop_unreferenced(spec):
+    """Specs with one unreferenced pool entity removed (indices remapped)."""
+    used = {pool: set() for pool in POOLS}
+
+    def note(container, key, target):
+        used[target].add(container[key])
+
+    _visit_refs(spec, note)
+    for pool in reversed(POOLS):
+        for idx in reversed(range(len(spec.get(pool, [])))):
+            if idx in used[pool]:
+                continue
+            cand = copy.deepcopy(spec)
+            del cand[pool][idx]
+
+            def shift(container, key, target, pool=pool, idx=idx):
+                if target == pool and container[key] > idx:
+                    container[key] -= 1
+
+            _visit_refs(cand, shift)
+            yield cand
+
+
+_value_prune = prune_candidates
+
+
+def shrink_reference_lists(spec):
+    """Specs with one member removed from a list of references."""
+    for pool, fields in REFS.items():
+        for i, entity in enumerate(spec.get(pool, [])):
+            for field, _target, shape in fields:
+                if shape in ("list", "pairs") and entity.get(field):
+                    if len(entity[field]) > 1:
+                        cand = copy.deepcopy(spec)
+                        cand[pool][i][field] = []
+                        yield cand
+                    for j in range(len(entity[field])):
+                        cand = copy.deepcopy(spec)
+                        del cand[pool][i][field][j]
+                        yield cand
+
+
+def prune_candidates(spec):  # noqa: F811
+    yield from drop_unreferenced(spec)
+    yield from shrink_reference_lists(spec)
+    yield from _value_prune(spec)
